@@ -1137,7 +1137,7 @@ pub fn c19_references() {
             _ => format!("[1].all(y, [2].exists(z, {}))", hole),
         }
     };
-    for hole in ["undecl_var", "undecl_fn(1)"] {
+    for hole in ["undecl_var", "undecl_fn(1)", "_private", "_", "X9"] {
         let program = Program::compile(&make(hole)).expect("source compiles");
         let refs = program.references();
         let got = program.execute(&Context::default());
